@@ -52,7 +52,7 @@ class Result:
         self.exceptions = []
         self.distinct = set()
         from . import rat
-        rat.BUDGET[0] = 6_000_000
+        rat.BUDGET[0] = 40_000_000
 
     def ok(self, sample=None):
         self.obligations += 1
@@ -170,7 +170,45 @@ def _reference_tree(repo):
 _PRUNED = {}
 
 
+RULE_SECONDS = 180
+
+
+class _Deadline:
+    """a rule that does not come back (an algebra blow-up on some tree) is an
+    analysis error, not a hang"""
+
+    def __init__(self, what):
+        self.what = what
+
+    def __enter__(self):
+        import signal
+        self.ok = hasattr(signal, 'SIGALRM')
+        if self.ok:
+            try:
+                self.old = signal.signal(signal.SIGALRM, self._fire)
+                signal.alarm(RULE_SECONDS)
+            except ValueError:          # not in the main thread
+                self.ok = False
+        return self
+
+    def _fire(self, *a):
+        raise AnalysisError(f'{self.what}: no result after {RULE_SECONDS} s '
+                            f'(the analysis does not terminate on this tree)')
+
+    def __exit__(self, *a):
+        if self.ok:
+            import signal
+            signal.alarm(0)
+            signal.signal(signal.SIGALRM, self.old)
+        return False
+
+
 def run_rule(r, ctx):
+    with _Deadline(getattr(r, '__name__', 'rule')):
+        return _run_rule_guarded(r, ctx)
+
+
+def _run_rule_guarded(r, ctx):
     """run one rule (see _run_rule_forked); when the tree has one-armed
     guards that the reference tree does not have, run it a second time on
     the model without the guarded statements: an obligation of the form
